@@ -5,7 +5,7 @@ import json
 import os
 import random
 from concurrent.futures import ThreadPoolExecutor
-from harness import common, gencfg, irx, hrt
+from harness import common, gencfg, irx, hrt, oracles
 
 
 class Case:
@@ -15,6 +15,9 @@ class Case:
         self.seed, self.text, self.cfg, self.ir, self.dname = seed, text, cfg, ir, dname
         self.exe, self.openargs, self.recs, self.hdr, self.sizes = exe, openargs, recs, hdr, sizes
         self.d = [x for x in ir['dsts'] if x['name'] == dname][0]
+        self.files = None
+        self.md = None
+        self.md_error = None
 
 
 def make_case(seed, work, cfg_filter=None, extra_cflags=(), max_tries=40, yaml_text=None, dname=None):
@@ -42,7 +45,14 @@ def make_case(seed, work, cfg_filter=None, extra_cflags=(), max_tries=40, yaml_t
             return ('compile-failed', text, files, rejected)
         openargs, recs = hrt.gen_pool(rnd, ir, dn)
         hdr, sizes = hrt.probe(exe, ir, dn, openargs, recs)
-        return Case(seed, text, cfg, ir, dn, exe, openargs, recs, hdr, sizes), rejected
+        cs = Case(seed, text, cfg, ir, dn, exe, openargs, recs, hdr, sizes)
+        cs.files = files
+        try:
+            from harness import tsdl
+            cs.md = tsdl.parse(files['metadata'])
+        except Exception as ex:
+            cs.md_error = str(ex)
+        return cs, rejected
     return None, rejected
 
 
@@ -167,3 +177,87 @@ def replay(c, path, oracle):
     c.coverage.update({'obligations': 1, 'discharged': 1, 'checker_cmd': 'replay of ' + path, 'samples': [r['history']]})
     if fails:
         c.violation(r)
+
+
+# ---- helpers shared by the decoding oracles ------------------------------------------------
+
+def call_facts(cs, h, lines):
+    """per API call: (call, segment, enabled_at_test (trace only), disc_before, disc_after, ret kv)"""
+    toggles = dict((a, b) for a, b in h['plat']['toggles'])
+    has_clock = cs.d['clock'] is not None
+    out = []
+    en, disc = 1, 0
+    for seg, call in zip(segments(lines), h['calls']):
+        ret = kv(seg[-1]) if seg[-1].startswith('ret ') else None
+        en_at_test = None
+        if call[0] == 'trace':
+            en_at_test = en
+            cbs = [l for l in seg if l.startswith('cb ')]
+            if has_clock and cbs:
+                seq = int(cbs[0].split()[2])
+                if seq in toggles:
+                    en_at_test = toggles[seq]
+        out.append({'call': call, 'seg': seg, 'en_at_test': en_at_test, 'disc_before': disc,
+                    'disc_after': int(ret['disc']) if ret else None, 'ret': ret})
+        if ret:
+            en, disc = int(ret['en']), int(ret['disc'])
+    return out
+
+
+def flushing(gen):
+    """wraps a history generator: re-enable tracing and run the documented finalisation idiom at the end"""
+    def g(rnd, ir, dn, oa, recs, hdr, sizes, **kw):
+        h = gen(rnd, ir, dn, oa, recs, hdr, sizes, **kw)
+        if not h['calls'] or h['calls'][0][0] != 'open':
+            h['calls'].insert(0, ['open'])
+        h['calls'] += [['enable', 1], ['fin']]
+        return h
+    return g
+
+
+def f9_territory(cs, h, lines):
+    """True iff a platform-initiated open/close ran while tracing was disabled at some point of it
+    (finding F9: those calls are silently ignored, which the documentation does not say)"""
+    en = 1
+    for f in call_facts(cs, h, lines):
+        after = int(f['ret']['en']) if f['ret'] else en
+        if f['call'][0] in ('open', 'close', 'fin') and any(l.startswith('cb open') or l.startswith('cb close') for l in f['seg']):
+            if en == 0 or after == 0:
+                return True
+        en = after
+    return False
+
+
+def known_by(c, tests):
+    """builds a known-finding classifier from [(finding id, predicate(cs, h, lines))]: a failing history
+    belongs to a listed finding iff the finding is in known_findings.json (status known) and its
+    predicate holds on that history"""
+    entries = {e['id']: e for e in c.known_entries('known')}
+
+    def classify(cs, h, lines, fails):
+        for fid, pred in tests:
+            if fid in entries and pred(cs, h, lines):
+                return entries[fid]
+        return None
+    return classify
+
+
+def replay_witnesses(c, oracle):
+    """replays the committed witness of every `known` finding of this property on the implementation:
+    prints its KNOWN-FINDING line if it still fails"""
+    work = common.scratch()
+    for e in c.known_entries('known'):
+        w = json.load(open(os.path.join(common.VERIF, e['witness'])))
+        h = w['histories'].get(c.id)
+        if h is None:
+            continue
+        made = make_case(4242, work, yaml_text=w['config_yaml'], dname=w['dst'])
+        cs = made[0]
+        if not isinstance(cs, Case):
+            c.inconclusive.append(f'witness of {e["id"]} does not build')
+            continue
+        lines = hrt.run_impl(cs.exe, cs.ir, cs.dname, [h])[0]
+        fails = oracle(cs, h, lines)
+        c.coverage.setdefault('known_finding_witnesses', {})[e['id']] = {'still_fails': bool(fails), 'first': fails[:1]}
+        if fails:
+            c.known_finding(e, fails[0])
